@@ -20,6 +20,8 @@ A_COMMON = [
     'MaybeUninit::write, <u64 as Hash>::hash (a hasher is the sequence of words fed to it).',
     'A-dataptr: DataPtr<T> method bodies (raw pointers, allocator) are outside Verus; their contracts over the ghost view cells(): Seq<Option<T>> '
     '(contracts/storage.vsp, transcribed from the # Safety sections) are assumed here and checked bounded by the Kani harnesses (thorough tier).',
+    'A-transmute: `From<&Entity<A>> for &EntityAny` / `From<&EntityDirect<A>> for &EntityDirectAny` (mem::transmute of a repr(transparent) wrapper) keep their signature with the ASSUMED contract '
+    '`*r == value.any()` (used by the generated event iterator); the loop-free full-domain Kani harness entity_transmute checks it on the real code.',
     'A-alloc: allocation failure aborts; size_of::<T>() * 2^24 <= isize::MAX, so DataPtr allocation panics and Vec::push capacity overflow are unreachable.',
     'A-gen: in the storage units, impls of ComponentsN / SlicesN / ViewN are generated code and their contracts (pack/unpack fields in order) are assumed; '
     'in the world / templates units they are the code section_archetype() generates for the schema and are verified against those contracts.',
@@ -34,13 +36,14 @@ TB_COMMON = ['Verus 0.2026.09.13 (rust_verify, vstd)', 'Z3 (bundled with Verus)'
 
 
 A_WORLD = [
-    'A-quote: the generated archetype / world code is obtained by evaluating the generator functions of macros/src/generate/world.rs as text templates for ONE schema '
-    '(WorldS { #[archetype_id(7)] ArchA(CompX, CompY), ArchB(CompX, CompZ) }, opaque Clone component types) with gv/quoteinst.py; assumed: quote! interpolation / repetition '
-    'behave as documented, convert_case Pascal->snake is the usual conversion for these identifiers, the archetype ids are the ones DataWorld::new computes (7, 8; that rule is verified under C15). '
+    'A-quote: the generated archetype / world code is obtained by evaluating the generator functions of macros/src/generate/world.rs as text templates for fixed schemas '
+    '(WorldS { #[archetype_id(7)] ArchA(CompX, CompY), ArchB(CompX, CompZ) } in both tiers; in the thorough tier also WorldU { ArchP(CompX) } and '
+    'WorldT { ArchP(X, Y, Z), #[archetype_id(200)] ArchQ(Z, X, Y), ArchR(Y, #[component_id(9)] Z, X) }; opaque Clone component types) with gv/quoteinst.py; assumed: quote! interpolation / repetition '
+    'behave as documented, convert_case Pascal->snake is the usual conversion for these identifiers, the archetype / component ids are the ones DataWorld::new computes for these declarations (that rule is verified under C15). '
     'Universality over world declarations is not claimed.',
     'R-world: the instantiated text is verified after the named rules of gv/worldgen.py (R-tag marker types because `struct A { data: StorageN<A, ..> }` is a cyclic self-reference for Verus; '
     'R-split of trait Archetype / World into acyclic layers with the default-method bodies verbatim; R-inherent; R-optmap; R-constpat; R-clone; R-priv; R-unchecked; R-implarg; R-bound). '
-    'Not extracted from the generated code: functions returning impl Iterator (iter, iter_mut, iter_created, iter_destroyed, EcsEventIterator), functions returning RefMut, Default impls, '
+    'Not extracted from the generated code: functions returning impl Iterator over raw-pointer iterators (iter, iter_mut), EcsEventIterator::size_hint, functions returning RefMut, Default impls, '
     'the generic forwarding TryFrom<&Entity<A>> / TryFrom<&mut ..> impls of the hidden __WorldSelectTotal enum, the macro_rules wrappers.',
     'A-std: core\'s reflexive `impl<T> From<T> for T` is the identity (axiom_into_reflexive in contracts/prelude.rs; used where generated code passes an already built Components struct through `impl Into<Components>`).',
 ]
@@ -54,9 +57,17 @@ def template_jobs(cfgs, threads=4):
     return [Job('templates', c, 2, build.build_templates_unit, threads=threads) for c in cfgs]
 
 
-def world_jobs(cfgs, threads=4):
-    """the code ecs_world! generates for the schema + the traits it implements (R-quote, R-world), over Storage2"""
-    return [Job('world', c, 2, build.build_world_job, threads=threads) for c in cfgs]
+def world_jobs(cfgs, threads=4, n=2):
+    """the code ecs_world! generates for a schema + the traits it implements (R-quote, R-world), over StorageN:
+    n = 2: WorldS { ArchA#7(CompX, CompY), ArchB(CompX, CompZ) } (main schema, also used by the templates unit);
+    n = 1: WorldU { ArchP(CompX) };   n = 3: WorldT { ArchP(X, Y, Z), ArchQ#200(Z, X, Y), ArchR(Y, Z#9, X) }"""
+    return [Job('world', c, n, build.build_world_job, threads=threads) for c in cfgs]
+
+
+def other_schemas(prop):
+    """thorough tier: the generated layer for the two other schema shapes"""
+    ev = prop == 'C17'
+    return world_jobs([DE if ev else D], threads=3, n=1) + world_jobs([RE if ev else R, DE], threads=3, n=3)
 
 
 # properties whose obligations include the generated archetype / world layer
@@ -79,14 +90,14 @@ def jobs_for(prop, tier):
 
 def _world_for(prop, tier):
     if prop == 'C19':
-        return (template_jobs([D, REW]) if tier == 'quick' else template_jobs(ALL_CFGS, threads=2))
+        return (template_jobs([D, REW]) if tier == 'quick' else template_jobs(ALL_CFGS, threads=2) + world_jobs([D, REW], threads=2, n=1) + world_jobs([DE, RW], threads=2, n=3))
     if prop in TEMPLATE_PROPS:
-        return template_jobs([D]) if tier == 'quick' else template_jobs([D, R, DE, REW], threads=3)
+        return template_jobs([D]) if tier == 'quick' else template_jobs([D, R, DE, REW], threads=3) + (other_schemas(prop) if prop in WORLD_PROPS else [])
     if prop not in WORLD_PROPS:
         return []
     if tier == 'quick':
         return world_jobs([DE] if prop == 'C17' else [D])
-    return world_jobs([DE, RE, DEW] if prop == 'C17' else [D, R, DE, REW], threads=3)
+    return world_jobs([DE, RE, DEW] if prop == 'C17' else [D, R, DE, REW], threads=3) + other_schemas(prop)
 
 
 def _jobs_for(prop, tier):
